@@ -150,21 +150,60 @@ def cert_issued_by(der, pub):
 _cms_n = [0]
 
 
+_cms_stats = {"calls": 0, "unavailable": 0, "retried": 0}
+
+
+def _der_to_pem(der):
+    import base64
+    b = base64.encodebytes(der).decode()
+    return "-----BEGIN CERTIFICATE-----\n" + b + "-----END CERTIFICATE-----\n"
+
+
+def cms_wellformed(cms_der):
+    """Structural check of the CMS blob itself (asn1crypto, no CLI): ContentInfo / SignedData with one SignerInfo."""
+    try:
+        from asn1crypto import cms
+        ci = cms.ContentInfo.load(cms_der)
+        return ci["content_type"].native == "signed_data" and len(ci["content"]["signer_infos"]) == 1
+    except Exception:  # noqa
+        return False
+
+
 def cms_verifies(cms_der, content, signer_der):
-    """Independent CMS check with the openssl CLI: detached signature `cms_der` over `content` by the certificate."""
+    """Independent CMS check with the openssl CLI: detached signature `cms_der` over `content` by the certificate.
+
+    Returns ("ok" | "fail" | "tool", text). Only an explicit verdict of the tool counts: exit 0 with "Verification successful",
+    or exit 4 with "Verification failure". Everything else (usage error, unreadable file, time-out, missing binary, unexpected
+    exit code or output) is a failure of the oracle TOOL: retried once, then reported as "tool" -- never as a violation.
+    All data goes through files under .work/C07/scratch/cms."""
     _cms_n[0] += 1
+    _cms_stats["calls"] += 1
     d = os.path.join(WORKDIR, "cms")
-    os.makedirs(d, exist_ok=True)
-    base = os.path.join(d, f"v{_cms_n[0] % 8}")
-    open(base + ".sig", "wb").write(cms_der)
-    open(base + ".dat", "wb").write(content)
-    open(base + ".crt", "wb").write(signer_der)
-    p = subprocess.run(["openssl", "x509", "-inform", "DER", "-in", base + ".crt", "-out", base + ".pem"], capture_output=True)
-    if p.returncode != 0:
-        return False, "signer certificate unreadable"
-    p = subprocess.run(["openssl", "cms", "-verify", "-binary", "-inform", "DER", "-in", base + ".sig", "-content", base + ".dat",
-                        "-certfile", base + ".pem", "-nointern", "-noverify", "-out", os.devnull], capture_output=True, text=True)
-    return p.returncode == 0, (p.stderr or "").strip()[-200:]
+    text = ""
+    for attempt in (0, 1):
+        try:
+            os.makedirs(d, exist_ok=True)
+            base = os.path.join(d, f"v{_cms_n[0]}_{attempt}")
+            for ext, data in ((".sig", cms_der), (".dat", content), (".pem", _der_to_pem(signer_der).encode())):
+                with open(base + ext, "wb") as f:
+                    f.write(data)
+            p = subprocess.run(["openssl", "cms", "-verify", "-binary", "-inform", "DER", "-in", base + ".sig", "-content", base + ".dat",
+                                "-certfile", base + ".pem", "-nointern", "-noverify", "-out", os.devnull],
+                               capture_output=True, text=True, timeout=120)
+            text = (p.stderr or "").strip()
+            for ext in (".sig", ".dat", ".pem"):
+                os.remove(base + ext)
+            if p.returncode == 0 and "Verification successful" in text:
+                return "ok", ""
+            if p.returncode == 4 and "Verification failure" in text:
+                return "fail", text[-200:]
+            text = f"exit {p.returncode}: {text[-200:]}"
+        except (OSError, subprocess.SubprocessError) as ex:
+            text = f"{type(ex).__name__}: {ex}"
+        if attempt == 0:
+            _cms_stats["retried"] += 1
+    _cms_stats["unavailable"] += 1
+    return "tool", text
 
 
 # ------------------------------------------------------------------------------------------------ cases
@@ -828,9 +867,14 @@ def oracle_image(c, image, pki, dek, impl_fuses):
                         f"bytes {miss[0]:#x}..{miss[-1]:#x} of IVT/boot data/DCD/XMCD/application are in no Authenticate Data block {rel}")
             if cov - need - set(range(0, csf_off)):
                 yield P("sig:blocks-outside", f"blocks {rel} reach outside the image")
-        ok, err = cms_verifies(sig, content, signer)
-        if not ok:
+        if not cms_wellformed(sig):
+            yield P(f"sig:cms-{what}-malformed", f"signature object of Authenticate {what} is not a CMS SignedData with one SignerInfo")
+            continue
+        verdict, err = cms_verifies(sig, content, signer)
+        if verdict == "fail":
             yield P(f"sig:cms-{what}", f"CMS signature of Authenticate {what} does not verify over the listed bytes ({err})")
+        elif verdict == "tool":
+            vlib.log(f"  note: openssl oracle unavailable for one call (case {c['id']}, Authenticate {what}): {err[:160]}")
     # cmd-data objects must not overlap each other
     used.sort()
     for (o1, l1), (o2, l2) in zip(used, used[1:]):
@@ -1035,7 +1079,12 @@ def _run(rep, rng, tier):
                 expr_owner.append(((c["id"], k), 7))
     # correspondence
     ndis = 0
-    vlib.log(f"  oracles done at {time.time() - rep.t0:.0f} s; openssl cms calls {_cms_n[0]}")
+    vlib.log(f"  oracles done at {time.time() - rep.t0:.0f} s; openssl cms calls {_cms_stats['calls']}, "
+             f"unavailable {_cms_stats['unavailable']}, retried {_cms_stats['retried']}")
+    # a failing oracle tool is not a property violation; it only fails this obligation when many calls had no verdict
+    rep.obligation("oracle:tool-availability (openssl cms -verify gave a verdict)",
+                   _cms_stats["unavailable"] <= max(3, _cms_stats["calls"] // 10),
+                   f"{_cms_stats['unavailable']} of {_cms_stats['calls']} calls without a verdict")
     compared = {"build": 0, "parse": 0, "error-class": 0}
     if model_ok:
         try:
@@ -1150,7 +1199,8 @@ def _run(rep, rng, tier):
                      f"(cms_sign calls observed per build: max {stats['cms_sign_calls_max']})",
                      "parse heuristics: the application carries a Thumb reset vector inside [entry-0x400, entry+len(image))"],
         extra_cov={"built": stats["built"], "rejected_or_error": stats["rejected"], "model_compared": compared,
-                   "openssl_cms_verifications": _cms_n[0]})
+                   "openssl_cms_verifications": _cms_stats["calls"],
+                   "openssl_oracle_unavailable": _cms_stats["unavailable"], "openssl_oracle_retried": _cms_stats["retried"]})
 
 
 if __name__ == "__main__":
